@@ -216,6 +216,9 @@ func runCheck(prop, tier string, seed int) int {
 	os.MkdirAll(filepath.Dir(evPath), 0o755)
 	os.Remove(evPath)
 	replayDir := filepath.Join(verifDir, "replays", prop)
+	if d := os.Getenv("VERIF_REPLAY_DIR"); d != "" {
+		replayDir = filepath.Join(d, prop) // runs against scratch trees keep their replays apart
+	}
 	os.RemoveAll(replayDir)
 	os.MkdirAll(replayDir, 0o755)
 
